@@ -74,10 +74,20 @@ def gen_case(rng, tier="quick"):
     ops = []
     nops = rng.randrange(3, 10)
     ops.append(["build", gen_spec(rng)])
+    kinds = ["build", "export", "restart", "import", "use",
+             "close", "ptt_file", "reexport", "roundtrip"]
+    weights = [2, 3, 1, 3, 4, 1, 2, 1, 5]
+    consumers = list(CONSUMERS)
+    if rng.random() < 0.4:
+        # swarm: only some operation kinds / consumers in this history
+        mask = [rng.random() < 0.45 for _ in kinds]
+        if sum(mask) < 2:
+            for i in rng.sample(range(len(kinds)), 2):
+                mask[i] = True
+        weights = [w + 1 if m else 0 for w, m in zip(weights, mask)]
+        consumers = rng.sample(consumers, rng.randrange(1, 4))
     for _ in range(nops):
-        k = _pick(rng, ["build", "export", "restart", "import", "use",
-                        "close", "ptt_file", "reexport", "roundtrip"],
-                  [2, 3, 1, 3, 4, 1, 2, 1, 5])
+        k = _pick(rng, kinds, weights)
         if k == "roundtrip":
             # export -> (restart) -> import -> use the imported object:
             # plain operations, so the history stays shrinkable
@@ -88,7 +98,7 @@ def gen_case(rng, tier="quick"):
             ops.append(["import", f, _pick(rng, ["file", "simple", None],
                                            [3, 3, 1])])
             for _ in range(rng.randrange(1, 3)):
-                ops.append(["use", -1, _pick(rng, CONSUMERS)])
+                ops.append(["use", -1, _pick(rng, consumers)])
             continue
         if k == "build":
             ops.append(["build", gen_spec(rng)])
@@ -101,7 +111,7 @@ def gen_case(rng, tier="quick"):
             ops.append(["import", rng.randrange(3),
                         _pick(rng, ["file", "simple", None], [3, 3, 1])])
         elif k == "use":
-            ops.append(["use", rng.randrange(8), _pick(rng, CONSUMERS)])
+            ops.append(["use", rng.randrange(8), _pick(rng, consumers)])
         elif k == "close":
             ops.append(["close", rng.randrange(8)])
         elif k == "reexport":
